@@ -582,7 +582,7 @@ fn ssh_case(c: &mut Case, fake: &Path, url: &gix_url::Url, v: &Variant, d: &Path
     ensure!(c, stderr.is_empty(), "{}", ctx(&format!("remote shell complained: {}", show(&stderr))));
 }
 
-fn main() {
+pub fn main() {
     // process-wide recorder for the local transport (`git-upload-pack` is looked up on PATH); set before any thread exists
     let proc_dir = Scratch::new("c34-proc").expect("scratch");
     let lbin = proc_dir.join("lbin");
